@@ -1,3 +1,206 @@
 import Dashu.Model.Int.Bits
+/-
+  Equality, ordering and hashing (C05).
+
+  Part 1 (integers) mirrors `integer/src/cmp.rs` (`cmp_same_len`, `cmp_in_place`,
+  `Ord for TypedReprRef` with the `Small < Large` shortcut, `Ord for IBig`) and the `PartialEq` /
+  `Hash` impls of `integer/src/repr.rs` (both go through `as_sign_slice`).
+  Part 2 (floats) mirrors `float/src/cmp.rs` (`PartialEq for FBig`, `repr_cmp_same_base`) and
+  `Repr::normalize` of `float/src/repr.rs`.
+  Part 3 (rationals) mirrors `rational/src/cmp.rs` (`repr_eq`, `repr_cmp`, structural `RBig ==`).
+  Core Lean only.
+-/
 namespace Dashu.Model
+
+-- ================================================================== part 1: integers
+
+/-- `cmp_same_len`: `lhs.iter().rev().cmp(rhs.iter().rev())` — lexicographic from the top word
+    (`debug_assert!(lhs.len() == rhs.len())`) -/
+def cmpSameLen : List Nat → List Nat → Ordering
+  | a :: as, b :: bs => (cmpSameLen as bs).then (compare a b)
+  | _, _ => .eq
+
+/-- `cmp_in_place`: length first, then `cmp_same_len` -/
+def cmpInPlace (a b : List Nat) : Ordering := (compare a.length b.length).then (cmpSameLen a b)
+
+/-- `Ord for TypedReprRef`: note the `RefSmall < RefLarge` shortcut, sound only for canonical values -/
+def TRepr.cmp : TRepr → TRepr → Ordering
+  | .small x, .small y => compare x y
+  | .small _, .large _ => .lt
+  | .large _, .small _ => .gt
+  | .large a, .large b => cmpInPlace a b
+
+/-- `Ord for IBig` -/
+def SRepr.cmp (a b : SRepr) : Ordering :=
+  match a.neg, b.neg with
+  | false, false => a.mag.cmp b.mag
+  | false, true => .gt
+  | true, false => .lt
+  | true, true => b.mag.cmp a.mag
+
+/-- `PartialEq for Repr`: `self.as_sign_slice() == other.as_sign_slice()` -/
+def SRepr.beq (W : Nat) (a b : SRepr) : Bool := a.neg == b.neg && a.mag.words W == b.mag.words W
+
+/-- what `Hash for Repr` feeds to the hasher: the sign, then the word slice (a length prefix and
+    the words) -/
+structure HashFeed where
+  neg : Bool
+  len : Nat
+  words : List Nat
+  deriving DecidableEq, Repr
+
+def SRepr.hashFeed (W : Nat) (a : SRepr) : HashFeed :=
+  ⟨a.neg, (a.mag.words W).length, a.mag.words W⟩
+
+/-- little-endian bytes of a `bytes`-byte machine integer -/
+def leBytes : Nat → Nat → List Nat
+  | 0, _ => []
+  | k + 1, n => n % 256 :: leBytes k (n / 256)
+
+/-- the byte stream a `Hasher` sees on a 64-bit little-endian host: `Sign` discriminant as `isize`,
+    `usize` length prefix, then the words -/
+def HashFeed.bytes (W : Nat) (f : HashFeed) : List Nat :=
+  leBytes 8 (if f.neg then 1 else 0) ++ leBytes 8 f.len ++ f.words.flatMap (leBytes (W / 8))
+
+-- ================================================================== part 2: floats
+
+/-- `float::Repr<B>`: `significand * B^exponent`; infinities are `0 * B^(±1)` -/
+structure FRepr where
+  signif : Int
+  exp : Int
+  deriving DecidableEq, Repr
+
+def FRepr.isInfinite (r : FRepr) : Bool := r.signif == 0 && r.exp != 0
+def FRepr.isZero (r : FRepr) : Bool := r.signif == 0 && r.exp == 0
+
+/-- number of base-`B` digits of `n` (0 for 0), `B ≥ 2` -/
+def digitsNat (B : Nat) (n : Nat) : Nat :=
+  if h : n = 0 ∨ B < 2 then 0 else
+    have : n / B < n := Nat.div_lt_self (by omega) (by omega)
+    digitsNat B (n / B) + 1
+
+/-- largest `k` with `B^k ∣ n` (`UBig::remove` / trailing-zero stripping), `n ≠ 0`, `B ≥ 2` -/
+def removeAll (B : Nat) (n : Nat) : Nat × Nat :=
+  if h : n = 0 ∨ B < 2 ∨ n % B ≠ 0 then (n, 0) else
+    have : n / B < n := Nat.div_lt_self (by omega) (by omega)
+    let (m, k) := removeAll B (n / B)
+    (m, k + 1)
+
+/-- `Repr::normalize`: significand not divisible by the base; zero significand ⇒ canonical zero -/
+def FRepr.normalize (B : Nat) (r : FRepr) : FRepr :=
+  if r.signif = 0 then ⟨0, 0⟩
+  else
+    let (m, k) := removeAll B r.signif.natAbs
+    ⟨if r.signif < 0 then -(m : Int) else (m : Int), r.exp + k⟩
+
+/-- `PartialEq<FBig<R2,B>> for FBig<R1,B>` -/
+def fbigEq (a b : FRepr) : Bool :=
+  if a.isInfinite && b.isInfinite then !((decide (a.exp ≥ 0)) ^^ (decide (b.exp ≥ 0)))
+  else if !a.isInfinite && !b.isInfinite then a.signif == b.signif && a.exp == b.exp
+  else false
+
+/-- `Sign * Ordering` -/
+def mulOrd (neg : Bool) (o : Ordering) : Ordering := if neg then o.swap else o
+
+/-- `repr_cmp_same_base::<B, false>(lhs, rhs, precision)`.  `digitsUb` is the `digits_ub` estimate
+    (an `f32` computation in the code): a parameter, required by the theorems to be an upper bound
+    of the true digit count. -/
+def reprCmpSameBase (B : Nat) (digitsUb : Int → Nat) (lhs rhs : FRepr) (prec : Option (Nat × Nat)) :
+    Ordering :=
+  -- case 1: infinities
+  if lhs.isInfinite && rhs.isInfinite then compare lhs.exp rhs.exp
+  else if rhs.isInfinite then (if rhs.exp ≥ 0 then .lt else .gt)
+  else if lhs.isInfinite then (if lhs.exp ≥ 0 then .gt else .lt)
+  else
+  -- case 2: signs (`IBig::sign` of zero is Positive)
+  let ln := decide (lhs.signif < 0)
+  let rn := decide (rhs.signif < 0)
+  if !ln && rn then .gt
+  else if ln && !rn then .lt
+  else
+  -- case 3: zeros
+  if lhs.isZero && rhs.isZero then .eq
+  else if lhs.isZero then .lt
+  else if rhs.isZero then .gt
+  else
+  -- case 4: exponent against precision
+  let c4 : Option Ordering :=
+    match prec with
+    | some (lp, rp) =>
+      if lp ≠ 0 ∧ rp ≠ 0 then
+        if lhs.exp > rhs.exp + rp then some (mulOrd ln .gt)
+        else if rhs.exp > lhs.exp + lp then some (mulOrd ln .lt)
+        else none
+      else none
+    | none => none
+  match c4 with
+  | some o => o
+  | none =>
+    -- case 5: exponent against (estimated) digits
+    if lhs.exp > rhs.exp + digitsUb rhs.signif then mulOrd ln .gt
+    else if rhs.exp > lhs.exp + digitsUb lhs.signif then mulOrd ln .lt
+    else
+      -- case 6: exact comparison after aligning the exponents (`shl_digits`)
+      if lhs.exp = rhs.exp then compare lhs.signif rhs.signif
+      else if lhs.exp > rhs.exp then compare (lhs.signif * (B : Int) ^ (lhs.exp - rhs.exp).toNat) rhs.signif
+      else compare lhs.signif (rhs.signif * (B : Int) ^ (rhs.exp - lhs.exp).toNat)
+
+/-- spec: the order of the values `signif * B^exp`, infinities at the ends -/
+def specFCmp (B : Nat) (a b : FRepr) : Ordering :=
+  if a.isInfinite && b.isInfinite then compare a.exp b.exp
+  else if b.isInfinite then (if b.exp ≥ 0 then .lt else .gt)
+  else if a.isInfinite then (if a.exp ≥ 0 then .gt else .lt)
+  else
+    let m := min a.exp b.exp
+    compare (a.signif * (B : Int) ^ (a.exp - m).toNat) (b.signif * (B : Int) ^ (b.exp - m).toNat)
+
+-- ================================================================== part 3: rationals
+
+/-- `rational::Repr`: numerator / denominator, denominator > 0 (not necessarily reduced) -/
+structure QRepr where
+  num : Int
+  den : Nat
+  deriving DecidableEq, Repr
+
+/-- `repr_eq::<false>` (Relaxed `==`) -/
+def reprEq (a b : QRepr) : Bool :=
+  if decide (a.num < 0) != decide (b.num < 0) then false
+  else if a.num = 0 then decide (b.num = 0)
+  else
+    let n1d2 : Int := bitLenNat a.num.natAbs + bitLenNat b.den
+    let n2d1 : Int := bitLenNat b.num.natAbs + bitLenNat a.den
+    if (n1d2 - n2d1).natAbs > 1 then false
+    else (a.num * b.den).natAbs == (b.num * a.den).natAbs
+
+/-- `PartialEq for RBig`: structural -/
+def rbigEq (a b : QRepr) : Bool := a.num == b.num && a.den == b.den
+
+/-- `repr_cmp::<false>`.  Step 3's second test is written in the code as
+    `rhs_bits < lhs_bits - 1`, which is the same condition as the first test, hence dead. -/
+def reprCmp (a b : QRepr) : Ordering :=
+  let an := decide (a.num < 0)
+  let bn := decide (b.num < 0)
+  if !an && bn then .gt
+  else if an && !bn then .lt
+  else
+  if a.den = 1 ∧ b.den = 1 then compare a.num b.num
+  else if a.num = 0 ∧ b.num = 0 then .eq
+  else if a.num = 0 then .lt
+  else if b.num = 0 then .gt
+  else
+    let lb : Int := (bitLenNat a.num.natAbs : Int) - bitLenNat a.den
+    let rb : Int := (bitLenNat b.num.natAbs : Int) - bitLenNat b.den
+    if lb > rb + 1 then (if an then .lt else .gt)
+    else if rb < lb - 1 then (if an then .gt else .lt)
+    else compare (a.num * b.den) (b.num * a.den)
+
+/-- spec: cross multiplication (denominators positive) -/
+def specQCmp (a b : QRepr) : Ordering := compare (a.num * b.den) (b.num * a.den)
+def specQEq (a b : QRepr) : Bool := a.num * b.den == b.num * a.den
+
+/-- `Repr::reduce`: divide by the gcd -/
+def QRepr.reduce (a : QRepr) : QRepr :=
+  let g := Nat.gcd a.num.natAbs a.den
+  if g = 0 then a else ⟨a.num / g, a.den / g⟩
+
 end Dashu.Model
